@@ -16,7 +16,12 @@ from common import fx, unfx, rq, enc_list, close
 REQUIRED = ['iptw_weight_spec', 'smr_is_odds', 'iptw_bounded_spec', 'outcome_ipmw_spec', 'stoch_numer',
             'stoch_weight_spec', 'ipmw_monotone', 'ipmw_unobserved_none', 'ipmw_fit_sets', 'ipmw_uniform_collapse',
             'ipmw_recovers_n', 'ipcw_cumprod', 'ipcw_time_order', 'ipcw_subject_local', 'sort_sorted_perm',
-            'uncensored_char', 'flat_uncensored_char']
+            'uncensored_char', 'flat_uncensored_char',
+            # ties to the source (Props/C05_Gen, C05_Ipcw, C05_Ipmw): generated definitions = the model
+            'stoch_iptw_fit_generated', 'stoch_numer_generated', 'stoch_weight_generated',
+            'ipcw_uncensored_generated', 'ipcw_weights_generated', 'uncensored_char_generated', 'flat_uncensored_generated',
+            'ipcw_cumprod_generated', 'ipcw_subject_local_generated',
+            'ipmw_weight_generated', 'ipmw_monotone_generated', 'ipmw_unobserved_none_generated', 'ipmw_recovers_n_generated']
 RULE = ('IPTW: random data sets (n 150-400) with a 2-3 level categorical, a binary and a continuous predictor, every '
         'cell of weights x standardize(3) x {unstabilized, stabilized x numerator model(2)} x bound(none, symmetric '
         'float, asymmetric pair) on a fresh IPTW object; IPTW.missing_model: stabilized x numerator x bound on data with '
@@ -408,7 +413,8 @@ def stoch_cell(chk, drv, df, cfg, refs, dsid, rec):
         else:
             kw['ps'] = fxs(p)
             kw['masks'] = ';'.join(bits(np.asarray(eval(c, {'df': df, 'np': np}))) for c in cond)
-        rep, _ = drv.ask('stochw', c='f', **kw)
+        # the op runs the definition regenerated from the text of StochasticIPTW.fit (Gen.stoch_iptw_fit)
+        rep, _ = drv.ask('stochw', c='f', hasw=int(bool(wcol)), **kw)
         chk.k(rep['status'] == 'ok' and rep['m'] != '_' and close(unfx(rep['m']), got, **TOLD),
               'StochasticIPTW.marginal_outcome = Lean model on the reference predictions', dict(case, model=rep.get('m')))
 
